@@ -40,7 +40,12 @@ PROP = dict(
                              'Fit.Links.Link_chunk_indep_api_two',
                              'Fit.Links.Link_chunk_indep_integrity',
                              'Fit.Links.Link_chunk_indep_decodeAll',
-                             'Fit.Links.Link_stdFactory_ok'],
+                             'Fit.Links.Link_stdFactory_ok',
+                             # (C) DecoderApi.run = (D') DecHist.history call by call; what the API returns under every fragmentation
+                             'Fit.Links.Link_dechist_eq_api_partial',
+                             'Fit.Links.Link_dechist_values_partial',
+                             'Fit.Links.Link_C08_ops_values_partial',
+                             'Fit.Links.Link_C08_ops_values_partial_two'],
                      crosscheck=[('dfrag', 'linkinteg')]),
     trusted_base=STD_TRUST + [
         "the model of readBuffer.Reset/ReadN (FitModel/ReadBuffer.lean: backing array, len, cur, last, memmove into the reserved section, refill) is hand-written from decoder/readbuffer.go and tied by family readbuffer: the unexported type (hook decoder/verif_export.go) driven with arbitrary Reset/ReadN sequences × schedules × buffer sizes, every returned byte string and error compared",
